@@ -5,6 +5,7 @@ MAXN = 1000000
 EXC = "EXC_std_runtime_error"
 
 STUBS = """
+unsigned char g_byte_j;   /* ghost: the buffer byte at position verif_gj on entry */
 /* interface models of the two pure virtual stream operations (WriteStream::write / ReadStream::read): they check the
  * caller-side obligation (the memory range handed over is valid), may throw, and record every call in ghost state */
 unsigned long g_w_calls, g_w_total, g_w_size[4], g_w_val[4];
@@ -40,6 +41,7 @@ def reader_state(o):
   verif_ctrl the_ctrl; the_ctrl.cnt = 1;
   %(o)s.buffer.p = &the_buf; %(o)s.buffer.c = &the_ctrl;
   unsigned long in_cursor = nondet_unsigned_long(); __CPROVER_assume(in_cursor <= in_N); %(o)s.cursor = in_cursor;
+  verif_gi = nondet_unsigned_long(); verif_gj = nondet_unsigned_long();
 """ % dict(o=o, max=MAXN)
 
 
@@ -50,6 +52,8 @@ def fixed_writer_state(o):
   the_arr.__base_AbstractArrayu8.numItems = in_N; the_arr.__base_AbstractArrayu8.ptr = in_N ? the_arr.array.p : 0;
   verif_ctrl c2; c2.cnt = 1; %(o)s.buffer.p = &the_arr; %(o)s.buffer.c = &c2;
   unsigned long in_cursor = nondet_unsigned_long(); __CPROVER_assume(in_cursor <= in_N); %(o)s.cursor = in_cursor;
+  verif_gi = nondet_unsigned_long(); verif_gj = nondet_unsigned_long();
+  if (verif_gj < in_N) g_byte_j = the_arr.array.p[verif_gj];
 """ % dict(o=o, max=MAXN)
 
 
@@ -68,7 +72,8 @@ def units():
     U.fn("br_read", pre_call=reader_state("o_@0"), requires=RINV + ["$1 == 0 || $2 == 0 || __CPROVER_w_ok($1, $2)"],
          assigns=["$0->cursor", "__CPROVER_object_whole($1)"], ensures={
              "read_accepted_iff_it_fits_in_the_remaining_bytes": "IMP(%s, __verif_exc == 0 && $0->cursor == OLD($0->cursor) + $2)" % FITS,
-             "read_past_the_end_throws_and_changes_nothing": "IMP(!%s, __verif_exc == %s && $0->cursor == OLD($0->cursor))" % (FITS, EXC)})
+             "read_past_the_end_throws_and_changes_nothing": "IMP(!%s, __verif_exc == %s && $0->cursor == OLD($0->cursor))" % (FITS, EXC),
+             "the_bytes_read_are_the_buffer_bytes_at_the_old_cursor": "IMP(%s && $1 != 0 && verif_gi < $2, ((unsigned char *)$1)[verif_gi] == $0->buffer.p->ptr[OLD($0->cursor) + verif_gi])" % FITS})
     U.fn("br_end", pre_call=reader_state("o_@0"), requires=RINV, ensures={"end_iff_everything_consumed": "RET == ($0->cursor == %s)" % N})
     FITSV = "($1 <= OLD(%s) - OLD($0->cursor))" % N
     U.fn("br_getView", pre_call=reader_state("o_@0"), requires=RINV, assigns=["$0->cursor"], ensures={
@@ -82,10 +87,12 @@ def units():
     CAP = "$0->buffer.p->__base_AbstractArrayu8.numItems"
     WINV = ["$0->cursor <= %s" % CAP, "__verif_exc == 0"]
     WFITS = "($2 <= OLD(%s) - OLD($0->cursor))" % CAP
-    U.fn("fbw_write", pre_call=fixed_writer_state("o_@0"), requires=WINV + ["$1 == 0 || $2 == 0 || __CPROVER_r_ok($1, $2)"],
+    U.fn("fbw_write", pre_call=fixed_writer_state("o_@0"), requires=WINV + ["$1 == 0 || $2 == 0 || __CPROVER_r_ok($1, $2)", "IMP(verif_gj < %s, $0->buffer.p->__base_AbstractArrayu8.ptr[verif_gj] == g_byte_j)" % CAP, "$1 == 0 || !__CPROVER_same_object($1, $0->buffer.p->array.p)"],
          assigns=["$0->cursor", "__CPROVER_object_whole($0->buffer.p->array.p)"], ensures={
              "write_accepted_exactly_when_it_fits": "IMP(%s, __verif_exc == 0 && $0->cursor == OLD($0->cursor) + $2)" % WFITS,
-             "write_that_does_not_fit_throws_without_writing": "IMP(!%s, __verif_exc == %s && $0->cursor == OLD($0->cursor))" % (WFITS, EXC)})
+             "write_that_does_not_fit_throws_without_writing": "IMP(!%s, __verif_exc == %s && $0->cursor == OLD($0->cursor))" % (WFITS, EXC),
+             "the_bytes_written_land_at_the_old_cursor": "IMP(%s && $1 != 0 && verif_gi < $2, $0->buffer.p->__base_AbstractArrayu8.ptr[OLD($0->cursor) + verif_gi] == ((const unsigned char *)$1)[verif_gi])" % WFITS,
+             "bytes_written_earlier_are_untouched": "IMP(verif_gj < OLD($0->cursor), $0->buffer.p->__base_AbstractArrayu8.ptr[verif_gj] == g_byte_j)"})
     RFITS = "($1 <= OLD(%s) - OLD($0->cursor))" % CAP
     U.fn("fbw_reserve", pre_call=fixed_writer_state("o_@0"), requires=WINV, assigns=["$0->cursor"], ensures={
         "reserve_accepted_exactly_when_it_fits": "IMP(%s, __verif_exc == 0 && $0->cursor == OLD($0->cursor) + $1 && IMP($1 > 0, RET == $0->buffer.p->__base_AbstractArrayu8.ptr + OLD($0->cursor)))" % RFITS,
